@@ -37,14 +37,14 @@ const testKeyB64 = "MDEyMzQ1Njc4OWFiY2RlZjAxMjM0NTY3ODlhYmNkZWY="
 type hdr struct{ K, V string }
 
 type wireCase struct {
-	Proto    string `json:"proto"`   // h1.1 | h1.0 | h2
-	Framing  string `json:"framing"` // content-length | chunked | chunked-trailer | close | none
-	Status   int    `json:"status"`
-	BodySize int    `json:"body_size"`
+	Proto     string `json:"proto"`   // h1.1 | h1.0 | h2
+	Framing   string `json:"framing"` // content-length | chunked | chunked-trailer | close | none
+	Status    int    `json:"status"`
+	BodySize  int    `json:"body_size"`
 	BodyClass string `json:"body_class"`
-	Headers  []hdr  `json:"headers"`
-	Backend  string `json:"backend"`
-	HopSet   string `json:"hop_set"`
+	Headers   []hdr  `json:"headers"`
+	Backend   string `json:"backend"`
+	HopSet    string `json:"hop_set"`
 }
 
 var hopByHop = []string{"Connection", "Keep-Alive", "Te", "Transfer-Encoding", "Upgrade", "Proxy-Connection", "Proxy-Authenticate", "Proxy-Authentication-Info", "Proxy-Authorization"}
